@@ -15,7 +15,7 @@ META = {
         "class, removed attributes / perturbation class, scale decade, mesh signature); "
         "non-trivial when some axis has >= 2 cells."
     ),
-    "cases": {"quick": 800, "thorough": 24000},
+    "cases": {"quick": 800, "thorough": 96000},
     "workers": {"quick": 8, "thorough": 16},
     "timeout": {"quick": 600, "thorough": 5400},
     "deciding": [
